@@ -104,8 +104,9 @@ class Stop(Exception):
 
 
 class Monitor:
-    def __init__(self, cov, out, ctx, family):
-        self.cov, self.out, self.ctx, self.family = cov, out, ctx, family
+    def __init__(self, cov, case_out, ctx, family):
+        self.cov, self.case_out, self.ctx, self.family = cov, case_out, ctx, family
+        self.out = []  # violations of THIS word (a word stops at its first violating event)
         self.log = []
         self.armed = False
         self.T = self.P = self.sim = None
@@ -121,11 +122,15 @@ class Monitor:
         self.writes = 0
         self.states_seen = set()
         self.completed = set()
+        self.dup_names = set()
 
     # ---- reporting
     def v(self, mech, msg):
-        if len(self.out) < 8 and not any(o["mech"] == mech for o in self.out):
+        if not any(o["mech"] == mech for o in self.out):
             self.out.append(viol(mech, msg, {"ctx": self.ctx, "events": list(self.log)}))
+            self.cov.hit("violations_by_mech", mech)
+            if len(self.case_out) < 16 and not any(o["mech"] == mech for o in self.case_out):
+                self.case_out.append(self.out[-1])
 
     def on_T(self, sw):
         sm = getattr(sw, "software_manager", None)
@@ -160,6 +165,8 @@ class Monitor:
             allowed = L.allowed_writes(kind, verb, sw.name == target, mon.power_edges)
             if allowed is None:
                 mon.cov.hit("diag_writes_under_unjudged_event", f"{verb}|{e[0]}->{e[1]}")
+                if verb in ("install", "uninstall", "sm_uninstall"):
+                    return  # writes inside one install request are implementation detail; the resulting state is judged
                 if e not in L.ALL_EDGES[kind]:
                     mon.v(f"illegal-transition/{kind}/{verb}/{e[0]}->{e[1]}", f"{sw.name} on T moved {e[0]} -> {e[1]} during {verb}: "
                           f"not an edge of the documented relation at all")
@@ -267,6 +274,11 @@ class Monitor:
             if a not in self.refs:
                 self.kinds[a] = L.APPLICATION
                 self.refs[a] = L.RefSoftware(a, L.APPLICATION, L.C, timing[L.APPLICATION], present=False)
+        for coll in (self.T.services, self.T.applications):
+            names = [x.name for x in coll.values()]
+            self.dup_names |= {x for x in names if names.count(x) > 1}
+        if self.dup_names and self.family != "dup":
+            self.cov.hit("diag_unexpected_duplicate_instances", ",".join(sorted(self.dup_names)))
         self.armed = True
 
     def cur(self, name):
@@ -343,7 +355,7 @@ class Monitor:
             return bool(self.raw(HttpResponsePacket(status_code=HttpStatusCode.OK), 80))
         if target == "c2-beacon":
             from primaite.simulator.network.protocols.masquerade import C2Packet
-            from primaite.simulator.system.applications.red_applications.c2 import C2Payload
+            from primaite.simulator.system.applications.red_applications.c2.abstract_c2 import C2Payload
 
             return bool(self.raw(C2Packet(masquerade_protocol="tcp", masquerade_port=80, keep_alive_frequency=5,
                                           payload_type=C2Payload.KEEP_ALIVE), 80))
@@ -434,6 +446,8 @@ class Monitor:
             self.event = (None, None)
             self.power_edges = False
             self.rx_stack.clear()
+        if self.out:
+            raise Stop()  # consequences of a violating event are not reported as further mechanisms
         self.check(verb, target)
 
     def lifecycle_request(self, verb, target, via, node_on):
@@ -474,7 +488,10 @@ class Monitor:
             if expected:
                 self.v(f"request-raises-in-documented-state/{kind}/{verb}@{pre}", f"{req} raised ({status}) while {target} was {pre}")
             return
-        if expected and status != "success":
+        if expected and status == "unreachable" and obj is not None and node_on:
+            self.v(f"lifecycle-route-missing/{kind}/{target}", f"{req} answered unreachable while {target} was {pre}: {type(obj).__name__} has no "
+                   f"'{verb}' request although the documentation accepts {verb} in this state")
+        elif expected and status != "success":
             self.v(f"request-refused-in-documented-state/{kind}/{verb}@{pre}", f"{req} answered {status} while {target} was {pre} "
                    f"(health {health}); the documentation accepts {verb} in this state")
         if not expected and status == "success":
@@ -588,13 +605,14 @@ class Monitor:
             if with_state:
                 views["state"] = set(T.describe_state()[label])
                 self.cov.inc("describe_state_checks")
-            names = list(views)
-            for i, a in enumerate(names):
-                for b in names[i + 1:]:
-                    if views[a] != views[b]:
-                        diff = sorted(views[a] ^ views[b])
-                        self.v(f"registry-disagreement/{label}/{a}-vs-{b}@{at}", f"after {self.log[-1]}: {label} by name differ between "
-                               f"{a} and {b}: only in one of them: {diff}")
+            union = set().union(*views.values())
+            if any(v != union for v in views.values()):
+                missing = {a: sorted(union - v) for a, v in views.items() if v != union}
+                odd = set().union(*[set(m) for m in missing.values()])
+                suffix = "/duplicated-system-software" if odd <= self.dup_names else ""
+                self.v(f"registry-disagreement/{label}@{at}{suffix}", f"after {self.log[-1]}: {label} listed by name differ; missing from "
+                       f"each view: {missing} (views: software_manager.software, node.{label}, request routes"
+                       f"{', describe_state' if with_state else ''})")
             dup = [n for n in in_node if sum(1 for s in (T.services if isvc else T.applications).values() if s.name == n) > 1]
             for n in dup:
                 self.cov.hit("diag_duplicate_instances", n)
@@ -610,8 +628,7 @@ class Monitor:
             sharers = [x for x in sm.software.values() if (x.port, x.protocol) == key]
             m = sm.port_protocol_mapping.get(key)
             if m is None or not any(m is x for x in sharers):
-                which = "unique-port" if len(sharers) == 1 else "shared-port"
-                self.v(f"port-mapping-missing/{which}@{at}", f"after {self.log[-1]}: installed {s.name} ({s.operating_state.name}) has port "
+                self.v(f"port-mapping-lost@{at}", f"after {self.log[-1]}: installed {s.name} ({s.operating_state.name}) has port "
                        f"{key} but port_protocol_mapping has no entry for it (software with that key: {[x.name for x in sharers]})")
 
 
@@ -680,12 +697,9 @@ def calibrate(cov, out):
     return timing
 
 
-def run_word(spec_sc, words_iter, cov, out, ctx, family, restart_d=1, install_d=2, auto_payload=None, drain=True, via="request",
-             judge=None):
+def run_word(spec_sc, words_iter, cov, out, ctx, family, restart_d=1, install_d=2, auto_payload=None, drain=True, via="request"):
     """one fresh world, one word: list of (verb, target)."""
     timing = calibrate(cov, out)
-    if out:
-        return None
     probes.uninstall_all()
     mon = Monitor(cov, out, ctx, family)
     mon.install()
@@ -818,10 +832,6 @@ class Check:
                     kw = {"restart_d": d} if fam == "svc" else {"install_d": d}
                     mon = run_word(sc, word, cov, out, {"family": fam, "target": t, "d": d, "events": evs, "via": via}, fam, via=via, **kw)
                     account(mon, [fam, t, d, evs])
-                    if len(out) >= 4:
-                        break
-                if len(out) >= 4:
-                    break
         elif fam in ("gate", "sys"):
             t = spec["target"]
             alpha = SVC_EVENTS if t in SERVICE_TYPES + SYS_SERVICE_TYPES else APP_EVENTS
@@ -835,8 +845,6 @@ class Check:
                 mon = run_word(sc, word, cov, out, {"family": fam, "target": t, "events": list(evs), "via": via, "payload_after_every_event": True},
                                fam, auto_payload=t, via=via)
                 account(mon, [fam, t, list(evs)])
-                if len(out) >= 4:
-                    break
         elif fam == "conn":
             self.run_conn(spec, cov, out, account)
         elif fam == "dup":
@@ -870,8 +878,6 @@ class Check:
                 mon = run_word(sc, word, cov, out, {"family": fam, "seed": spec["seed"], "k": k, "power": power, "restart_d": rd,
                                                     "install_d": idur, "via": via}, fam, restart_d=rd, install_d=idur, via=via)
                 account(mon, [fam, spec["seed"], k])
-                if len(out) >= 4:
-                    break
         cov.inc("nontrivial_sequences", nontriv)
         cov.d["words"] = sorted(words)[:3000]
         return {"violations": out, "cov": cov.d, "nontrivial": nontriv > 0, "digest": digest(spec),
@@ -928,14 +934,10 @@ class Check:
                         yield ("tick", None)
                     mon = self._run_gen(sc, word, cov, out, ctx, "conn", install_d=d, via=via)
                     account(mon, ["conn", which, d, via])
-                if out:
-                    return
 
     def _run_gen(self, sc, gen, cov, out, ctx, family, **kw):
         box = {}
         timing = calibrate(cov, out)
-        if out:
-            return None
         probes.uninstall_all()
         mon = Monitor(cov, out, ctx, family)
         mon.install()
@@ -971,8 +973,6 @@ class Check:
                 mon = run_word(sc, word, cov, out, {"family": "dup", "target": t, "events": evs, "via": via,
                                                     "note": "system software listed again in the scenario (or auto-installed twice)"}, "dup", via=via)
                 account(mon, ["dup", t, evs, via])
-                if out:
-                    return
 
     def run_shared(self, spec, cov, out, account):
         t = spec["target"]
@@ -993,8 +993,6 @@ class Check:
                 mon = run_word(sc, word, cov, out, {"family": "shared", "target": t, "shares_port_with": other, "events": evs, "via": via}, "shared",
                                via=via)
                 account(mon, ["shared", t, evs, via])
-                if out:
-                    return
 
     def post(self, specs, results, tier, seed):
         w = set()
